@@ -1118,7 +1118,9 @@ class BitwiseAndCriterion(Criterion):
     def get_sql(self, ctx: SqlContext) -> str:
         sql = "({term} & {value})".format(
             term=self.term.get_sql(ctx.copy(with_alias=False)),
-            value=self.value,
+            value=self.value.get_sql(ctx.copy(with_alias=False))
+            if hasattr(self.value, "get_sql")
+            else self.value,
         )
         return format_alias_sql(sql, self.alias, ctx)
 
